@@ -124,6 +124,31 @@ CHECKS = {
                      "equal the model tree including Python types.",
                 note="trusted: layout transcription in mc/builders/hyperv.py whose independent decoder reproduces the trees of both "
                      "repository fixtures; root entries are Node entries"),
+    "C18": dict(level=MC, ref="DESIGN.md section 4 C18",
+                text="Every VMX device configuration of the bounded product (bus x bus number x unit x deviceType x key casing x "
+                     "file name; singles, pairs, triples in every line order with controller / floppy / ethernet / comment / blank "
+                     "lines), VMX dictionary semantics (case-insensitive keys, last assignment wins), every OVF reference/disk/"
+                     "item graph up to the bound in three namespace spellings, VirtualBox registries (nesting, formats, types, "
+                     "DVD/floppy images) and every PVS hardware-list interleaving is parsed with the real parsers and the disk "
+                     "list compared with the model's.",
+                note="trusted: the reading of 'hard disk' per format recorded under assumptions in the evidence (VMX device types, "
+                     "VirtualBox Normal+VDI as the library documents, OVF ResourceType 17, PVS Hdd)",
+                technique="exhaustive enumeration of configuration documents against a model disk list"),
+    "C19": dict(level=FE, ref="DESIGN.md section 4 C19",
+                text="Every hostile document family (internal entities nested to depth 6, 'laughs' chains, external general entities "
+                     "file:// and http://, internal / external parameter entities, external DTD subset) x reference site is fed to "
+                     "each of the four XML entry points under an OS-level audit monitor: a document that declares an entity must "
+                     "be refused and no canary open / socket / urllib event may occur; DOCTYPE-only and plain documents must "
+                     "parse to the usual result.",
+                note="trusted: CPython audit events as the observation of file / network access; defusedxml is a dependency",
+                technique="exhaustive fault enumeration of hostile XML families at every entry point under an audit monitor"),
+    "C20": dict(level=MC, ref="DESIGN.md section 4 C20",
+                text="Every sequence of up to 3-4 members over 14 member kinds (visor files of boundary sizes, empty files, "
+                     "directories, ustar members, GNU long names) x every permutation of the data areas x alignment x gaps x gzip "
+                     "x trailing padding is serialised and read with the real reader: names and types in header order, every "
+                     "extracted body equals the bytes at the recorded offset; archives without visor members are compared with "
+                     "the standard tarfile reader.",
+                note="trusted: visor header transcription in mc/builders/vmtar.py (walks the repository fixture), CPython tarfile"),
 }
 
 PENDING_REASON = "check not built yet in this session (planned in DESIGN.md section 4); not claimed until it runs"
